@@ -53,6 +53,30 @@ def c03_jobs(tier, seed):
     return j
 
 
+def c10_jobs(tier, seed):
+    q = tier == "quick"
+    s = 15 if q else 150
+    j = []
+    j += shards("dbg", "w_lockfree", "c10", 6 if q else 8, s, seed)
+    j += shards("rel", "w_lockfree", "c10", 3 if q else 4, s, seed, first=20)
+    j += shards("tsan", "w_lockfree", "c10 --d1 150 --d2 10 --rand 10", 3 if q else 4, s, seed, first=40)
+    j += miri("w_lockfree", "c10 --addonly --off 2", 2 if q else 8, s, seed, M1)
+    j += miri("w_lockfree", "c10 --off 2", 2 if q else 8, s, seed, M2, first=10)
+    return j
+
+
+def c12_jobs(tier, seed):
+    q = tier == "quick"
+    s = 15 if q else 150
+    j = []
+    j += shards("dbg", "w_lockfree", "c12", 6 if q else 8, s, seed)
+    j += shards("rel", "w_lockfree", "c12", 3 if q else 4, s, seed, first=20)
+    j += shards("tsan", "w_lockfree", "c12 --d1 150 --d2 10 --rand 10", 3 if q else 4, s, seed, first=40)
+    j += miri("w_lockfree", "c12 --single-store --off 2", 2 if q else 8, s, seed, M1)
+    j += miri("w_lockfree", "c12 --off 2", 2 if q else 8, s, seed, M2, first=10)
+    return j
+
+
 PROPS = {
     "C09": {
         "level": "exploration",
@@ -69,5 +93,21 @@ PROPS = {
         "rule": "random producer/consumer programs (capacity 1-4, 1-2 threads per role handing the role over through a mutex) on IndexQueue, SafelyOverflowingIndexQueue and the generic spsc::Queue with a 24-byte self-checking element; unique increasing values; every program is executed under hook off / every depth-1 stall plan / sampled depth-2 / random delays (debug, release, TSan) and under Miri (full mode for the race-free structures and the no-lap regime, SC mode for the lapping overflow queue). Non-trivial = a push and a pop overlapped in time; distinct = distinct (program, interleaving signature, result sequence).",
         "assumptions": COMMON_ASSUMPTIONS + ["connection-level conservation is covered by the w_cal worker when present in the job list"],
         "floor": (2000, 200),
+    },
+    "C10": {
+        "level": "exploration",
+        "jobs": c10_jobs,
+        "miri_full": miri_full,
+        "rule": "random programs on mpmc::Container (capacity 1-3 so slots are reused, self-checking entries of 8/32/128 bytes): 1-2 writer threads add/remove/abandon-under-dead-owner/recover, one reader refreshing its snapshot; every program under hook off / every depth-1 stall plan / sampled depth-2 / random delays (debug, release, TSan) and Miri (full mode add-only regime, SC mode general). Non-trivial = an add overlapped a refresh in time; distinct = distinct (program, interleaving signature, snapshot sequence).",
+        "assumptions": COMMON_ASSUMPTIONS,
+        "floor": (1000, 100),
+    },
+    "C12": {
+        "level": "exploration",
+        "jobs": c12_jobs,
+        "miri_full": miri_full,
+        "rule": "random programs on UnrestrictedAtomic with self-checking values of 1,2,3,7,8,9,63,64,65,200 bytes and alignment 1/8/64: a writer doing copy-style and loan-style stores and handing the producer token back, an optional contender for the producer token, 1-2 readers; every program under hook off / every depth-1 stall plan / sampled depth-2 / random delays (debug, release, TSan) and Miri (full mode single-store regime, SC mode general). Non-trivial = a load overlapped a store in time; distinct = distinct (program, interleaving signature, observed versions).",
+        "assumptions": COMMON_ASSUMPTIONS,
+        "floor": (1000, 100),
     },
 }
